@@ -13,7 +13,14 @@ import (
 	eng "verif.local/engine"
 )
 
-const verifDir = "/verif"
+// verifDir: where harnesses, corpus, evidence and replays live. VERIF_DIR lets a
+// background run from a snapshot (vp run) keep its output out of /verif.
+var verifDir = func() string {
+	if d := os.Getenv("VERIF_DIR"); d != "" {
+		return d
+	}
+	return "/verif"
+}()
 
 var l1Props = map[string]bool{"C01": true, "C03": true, "C05": true, "C06": true, "C07": true, "C08": true, "C09": true, "C12": true, "C19": true}
 
